@@ -8,6 +8,7 @@ import (
 	"fmt"
 	"sort"
 	"strings"
+	"sync"
 	"testing"
 	"time"
 
@@ -35,6 +36,9 @@ type c09P struct {
 	R         uint64   `json:"r"`          // trust range (0 unlimited)
 	NoTracked bool     `json:"no_tracked"` // trusted mode with an empty peer tracker (falls back to trusted peers)
 	CtxMs     int      `json:"ctx_ms"`
+	// Parallel > 0 (untrusted mode): after the judged call, this many Head() calls run concurrently; each must ask
+	// every trusted peer exactly once and return what the single call returned
+	Parallel int `json:"parallel,omitempty"`
 }
 
 func quorum(n int) int {
@@ -112,6 +116,16 @@ func TestC09(t *testing.T) {
 			p.Peers = append(p.Peers, a)
 		}
 		mon.Emit(r, "head", p, "head")
+	}
+	// concurrent callers (the set of asked peers and the result must not depend on other calls in flight)
+	for rep := 0; rep < r.N(2, 40); rep++ {
+		for _, ps := range [][]c09Ans{
+			{{Kind: "h", H: 30, DelayMs: 5}, {Kind: "h", H: 31, DelayMs: 10}, {Kind: "h", H: 32, DelayMs: 15}},
+			{{Kind: "h", H: 30, DelayMs: 5}, {Kind: "h", H: 30, DelayMs: 10}, {Kind: "h", H: 35, DelayMs: 2}},
+			{{Kind: "h", H: 30, DelayMs: 5}, {Kind: "h", H: 31, DelayMs: 10}, {Kind: "h", H: 32, DelayMs: 15}, {Kind: "notfound", DelayMs: 1}, {Kind: "h", H: 33, DelayMs: 20}},
+		} {
+			mon.Emit(r, "head", c09P{Peers: ps, CtxMs: 5000, Parallel: 3 + rep%6}, "head")
+		}
 	}
 	r.Finish()
 }
@@ -358,6 +372,45 @@ func c09Run(c *mon.Case, p c09P) {
 				c.Violation("highest-header-not-returned/"+sig, fmt.Sprintf("returned %v, highest usable %d", got, highest), nil)
 			}
 		}
+		if p.Parallel > 0 && th == nil && !c.Violated() && (expect == "quorum" || expect == "highest" || expect == "notfound") {
+			before := make([]int, n)
+			for i := range peers {
+				before[i] = len(peers[i].Requests())
+			}
+			type pres struct {
+				h   H
+				err error
+			}
+			out := make([]pres, p.Parallel)
+			var pwg sync.WaitGroup
+			for k := 0; k < p.Parallel; k++ {
+				pwg.Add(1)
+				go func() {
+					defer pwg.Done()
+					pctx, pc := context.WithTimeout(context.Background(), time.Duration(p.CtxMs)*time.Millisecond)
+					defer pc()
+					h, err := ex.Head(pctx)
+					out[k] = pres{h, err}
+				}()
+			}
+			pwg.Wait()
+			c.Count("parallel_head_calls", p.Parallel)
+			for i := range peers {
+				if before[i] == 0 {
+					continue
+				}
+				if d := len(peers[i].Requests()) - before[i]; d != p.Parallel {
+					c.Violation("concurrent-calls/peer-not-asked-exactly-once-per-call/"+sig, fmt.Sprintf("%d concurrent Head() calls, but trusted peer %d received %d requests", p.Parallel, i+1, d), nil)
+					break
+				}
+			}
+			for k, o := range out {
+				same := (o.err == nil) == (gerr == nil) && ((o.h == nil && got == nil) || (o.h != nil && got != nil && o.h.Hash().String() == got.Hash().String()))
+				if !same {
+					c.Violation("concurrent-calls/result-differs-from-single-call/"+sig, fmt.Sprintf("single call returned %v, %v; concurrent call %d returned %v, %v", got, gerr, k, o.h, o.err), nil)
+					break
+				}
+			}
+		}
 	})
 }
-
